@@ -80,6 +80,20 @@ def gen_cases(rng, tier):
         norb = rng.choice([4, 5])
         na, nb = rng.randint(0, 1), rng.randint(0, 1)
         add(norb, 'ns', na + nb, na - nb, rng.choice(patterns(rng.choice([1, 2]), True)), transition=rng.random() < 0.5)
+    # large sectors (more than 100 / 200 strings of one spin: several determinant blocks of the blocked RDM kernels),
+    # sparse Gaussian-integer states spread over the blocks; ranks 1-2
+    for _ in range(4 if tier == 'quick' else 16):
+        norb, na, nb = rng.choice([(10, 4, 1), (10, 5, 1), (12, 3, 1), (11, 4, 0), (10, 1, 5), (9, 4, 2), (10, 5, 0)])
+        keys = fqeio.sector_keys(norb, 'ns', na + nb, na - nb)
+        basis = fqeio.basis_of(norb, keys)
+
+        def sparse_state():
+            sel = rng.sample(basis, min(len(basis), 14))
+            # make connected pairs likely: add single excitations of chosen determinants
+            return [[a, b, rng.randint(-2, 2) or 1, rng.randint(-2, 2)] for a, b in sel]
+        pat = rng.choice(patterns(rng.choice([1, 2, 2]), True))
+        cases.append({'kind': 'rdm', 'norb': norb, 'mode': 'ns', 'n': na + nb, 'sz': na - nb, 'pat': pat, 'big': True,
+                      'ket': sparse_state(), 'bra': sparse_state() if rng.random() < 0.5 else None, 'letters': None})
     # numeric elements and Hamiltonian expectation values
     for _ in range(20 if tier == 'quick' else 120):
         norb = rng.randint(1, 3)
@@ -214,6 +228,8 @@ def nontrivial(case, exp):
 
 
 def case_class(case):
+    if case['kind'] == 'rdm' and case.get('big'):
+        return 'rdm/big/norb%d/r%d' % (case['norb'], len(case['pat']) // 2)
     if case['kind'] == 'rdm':
         return 'rdm/r%d/%s/%s' % (len(case['pat']) // 2, case['mode'], 'transition' if case['bra'] else 'diag')
     return '%s/%s' % (case['kind'], case['mode'])
@@ -231,7 +247,8 @@ def shrink(case):
 THEOREM_FILES = ['P_C03']
 RULE = ('every operator ordering of rank 1-2 (spin-free for spin-conserving, spin-orbital for spin-broken '
         'wavefunctions), random orderings of rank 3-4, bra=ket and transition, unnormalised Gaussian-integer '
-        'states, low-filling sectors, shuffled letters; numeric-index elements; expectationValue(H) for the C01 '
+        'states, low-filling sectors, shuffled letters; sparse states on sectors with 126-330 strings of one spin (several '
+        'blocks of the blocked kernels); numeric-index elements; expectationValue(H) for the C01 '
         'Hamiltonian classes. non-trivial: tensor with >= 2 distinct non-zero entries / non-zero value')
 NOT_PROVED = ['rdm_kh (the D-vector RDM formulas) and wick_sound are not yet Coq theorems: the implementation is '
               'compared with the matrix-element specification directly']
